@@ -76,6 +76,25 @@ class Func:
         line = getattr(node, "lineno", None) if node is not None else self.node.lineno
         return f"{self.file}:{line} {self.qualname}"
 
+    def pos(self, node):
+        """Position of `node` in the text order of this function's (possibly normalised) body.  Line numbers are kept
+        from the source for reporting and are not an order once helpers have been inlined: use this to ask "before?"."""
+        idx = getattr(self, "_pos_index", None)
+        if idx is None:
+            idx = {}
+
+            def dfs(n):
+                idx[id(n)] = len(idx)
+                for c in ast.iter_child_nodes(n):
+                    dfs(c)
+
+            dfs(self.node)
+            self._pos_index = idx
+        return idx.get(id(node), -1)
+
+    def before(self, a, b):
+        return self.pos(a) < self.pos(b)
+
     def __repr__(self):
         return f"<Func {self.module.name}.{self.qualname}>"
 
